@@ -6,7 +6,7 @@
      common/util.go        CutNamesapce / ExtractNamesapce;  common/limit.go CheckKey, CheckKeySubKey
      node/util.go          wrapWriteCommandK/KSubkey/KSubkeySubkey/KAnySubkey/KAnySubkeyAndMax/KV/KVV/
                            KSubkeyV/KSubkeyVSubkeyV, wrapWriteMergeCommandKK/KVKV, rebuildFirstKeyAndPropose
-     node/keys.go          setCommand, setnxCommand, setIfEQCommand, delIfEQCommand, setbitCommand,
+     node/keys.go          setCommand, setnxCommand, setIfEQCommand, delIfEQCommand, setbitCommand, setrangeCommand,
                            getExNxXXArgs, getExSecs, local*Command (apply side)
      node/list.go set.go zset.go hash.go json.go ttl.go geo.go multi.go   *Command (leader side) and
                            local* (apply side): which cmd.Args[i] they index, what they parse, in order
@@ -266,6 +266,13 @@ Definition setIfEQCommand (args : list bytes) (f : fact) : lres :=
   else ifeq_tail args f.
 Definition delIfEQCommand (args : list bytes) (f : fact) : lres :=
   if negb (Nat.eqb (alen args) 3) then LRej else ifeq_tail args f.
+Definition setrangeCommand (args : list bytes) : lres :=
+  if Nat.ltb (alen args) 4 then LRej
+  else if negb (check_key (arg args 1)) then LRej
+  else match parse_int (arg args 2) with
+       | None => LRej
+       | Some off => if (off <? 0)%Z || (Z.of_N max_value_size <? off)%Z then LRej else propose_first args
+       end.
 Definition setbitCommand (args : list bytes) : lres :=
   if negb (Nat.eqb (alen args) 4) then LRej
   else match parse_int (arg args 2) with
@@ -423,6 +430,7 @@ Definition leader_write (wrap : gname) (ps : list gname) (args : list bytes) (f 
     else if gname_eqb m "setIfEQCommand" then setIfEQCommand args f
     else if gname_eqb m "delIfEQCommand" then delIfEQCommand args f
     else if gname_eqb m "setbitCommand" then setbitCommand args
+    else if gname_eqb m "setrangeCommand" then setrangeCommand args
     else if gname_eqb m "lsetCommand" then lsetCommand args
     else if gname_eqb m "ltrimCommand" then ltrimCommand args f
     else if gname_eqb m "zaddCommand" then zaddCommand args
